@@ -336,7 +336,7 @@ func c04Fallback(c *Ctx) {
 	recvType := ""
 	if r := fetch.SSA.Signature.Recv(); r != nil {
 		if n, ok := deref(r.Type()).(*types.Named); ok {
-			recvType = n.Obj().Name()
+			recvType = canonType(n.Obj())
 		}
 	}
 	state := map[string]bool{}
